@@ -2281,7 +2281,7 @@ DLLEXPORT int tj3DecompressToYUVPlanes8(tjhandle handle,
 
       for (i = 0; i < dinfo->num_components; i++) {
         for (j = 0; j < MIN(th[i], ph[i] - crow[i]); j++) {
-          memcpy(outbuf[i][crow[i] + j], tmpbuf[i][j], pw[i]);
+          memcpy(outbuf[i][crow[i] + j], tmpbuf[i][j], MIN(pw[i], iw[i]));
         }
       }
     }
